@@ -38,6 +38,10 @@ type routeUnit struct {
 	Refused  map[string]string
 }
 
+// sentinelSuffix is appended to every string sentinel: the hostile pass of C03 uses text that URL
+// builders based on replace functions or template engines could mangle (checks run one unit at a time).
+var sentinelSuffix string
+
 // sentinelReq fills every field of the request with a distinctive sentinel value.
 func sentinelReq(md protoreflect.MessageDescriptor) *dynamicpb.Message {
 	m := dynamicpb.NewMessage(md)
@@ -46,7 +50,7 @@ func sentinelReq(md protoreflect.MessageDescriptor) *dynamicpb.Message {
 		fd := fds.Get(i)
 		switch fd.Kind() {
 		case protoreflect.StringKind:
-			m.Set(fd, protoreflect.ValueOfString("S"+strings.ReplaceAll(string(fd.Name()), "_", "")))
+			m.Set(fd, protoreflect.ValueOfString("S"+strings.ReplaceAll(string(fd.Name()), "_", "")+sentinelSuffix))
 		case protoreflect.Int32Kind:
 			m.Set(fd, protoreflect.ValueOfInt32(int32(4000+int(fd.Number()))))
 		case protoreflect.Int64Kind:
@@ -59,7 +63,7 @@ func sentinelReq(md protoreflect.MessageDescriptor) *dynamicpb.Message {
 func sentinelOf(fd protoreflect.FieldDescriptor) string {
 	switch fd.Kind() {
 	case protoreflect.StringKind:
-		return "S" + strings.ReplaceAll(string(fd.Name()), "_", "")
+		return "S" + strings.ReplaceAll(string(fd.Name()), "_", "") + sentinelSuffix
 	case protoreflect.Int32Kind:
 		return fmt.Sprint(4000 + int(fd.Number()))
 	case protoreflect.Int64Kind:
@@ -340,7 +344,28 @@ func c03unit(c *Ctx, u *routeUnit, ch, node *lab.Child) {
 		}
 	}
 	enc := &jsonmap.Encoder{}
+	// two passes over the unit's routes: plain sentinels, then sentinels carrying text that is special
+	// to replace functions, template engines and URL syntax (same routes, value class "hostile")
+	type passCase struct {
+		rc     *corpus.RouteCase
+		suffix string
+	}
+	var todo []passCase
 	for _, rc := range u.Cases {
+		todo = append(todo, passCase{rc, ""})
+	}
+	for _, rc := range u.Cases {
+		if len(rc.PathVars) == 0 && len(rc.Query) == 0 {
+			continue
+		}
+		h := *rc
+		h.ID = rc.ID + "@hostile"
+		todo = append(todo, passCase{&h, "$&$'$`$$e$1${x}%2F{id}{}é /?#+;=&"})
+	}
+	defer func() { sentinelSuffix = "" }()
+	for _, pc := range todo {
+		rc := pc.rc
+		sentinelSuffix = pc.suffix
 		if !c.Want(rc.ID) {
 			continue
 		}
